@@ -405,6 +405,22 @@ func runTail(tl Tail, path string) (res tailResult) {
 			}
 			time.Sleep(5 * time.Millisecond)
 		}
+		// the consumer is idle and the queue empty now: a line appended at this point can be kept up with and must arrive
+		sentinel := []byte("m-sentinel: the consumer is idle, this line cannot be dropped")
+		all, sel = append(all, sentinel), append(sel, true)
+		before := nGot()
+		if _, err := f.Write(append(append([]byte(nil), sentinel...), '\n')); err != nil {
+			res.inconc = err.Error()
+			return
+		}
+		waitFor(before+1, 3*time.Second)
+		if nGot() == before {
+			cancel()
+			res.fail = "a line appended while the consumer was idle and the delivery queue empty was not delivered within 3 s (dropped although the client could keep up)"
+			res.classes = append(res.classes, "queue=tiny")
+			return
+		}
+		time.Sleep(20 * time.Millisecond)
 	}
 	cancel()
 	<-consumerDone
